@@ -191,6 +191,10 @@ struct ExecSpec {
     loop_dec_first: bool,
     /// this many no-op instructions precede everything else
     pad: u16,
+    /// allowed-memory reach: how the region is registered (0 = one range; 1 = the whole, then a
+    /// nested part; 2 = a nested part, then the whole; 3 = two adjacent halves; 4 = the whole twice;
+    /// 5 = two overlapping ranges). Every byte of the region is covered in each case.
+    allowed_split: u8,
     /// the adds sit in an eBPF-to-eBPF local function called from main (interpreter and JIT only)
     in_callee: bool,
     /// a helper that overwrites every caller-saved register is called before the adds
@@ -509,6 +513,7 @@ impl Scenario {
             j["loop_step"] = e.loop_step.into();
             j["loop_dec_first"] = e.loop_dec_first.into();
             j["pad"] = e.pad.into();
+            j["allowed_split"] = e.allowed_split.into();
             j["in_callee"] = e.in_callee.into();
             j["helper_first"] = e.helper_first.into();
             if let Some(c) = &e.stack_check {
@@ -570,6 +575,7 @@ impl Scenario {
                 loop_step: e["loop_step"].as_u32().unwrap_or(0),
                 loop_dec_first: e["loop_dec_first"].as_bool().unwrap_or(false),
                 pad: e["pad"].as_u16().unwrap_or(0),
+                allowed_split: e["allowed_split"].as_u8().unwrap_or(0),
                 in_callee: e["in_callee"].as_bool().unwrap_or(false),
                 helper_first: e["helper_first"].as_bool().unwrap_or(false),
                 stack_check: if e["stack_check"].is_object() {
@@ -784,6 +790,7 @@ fn generate(rng: &mut Rng) -> Scenario {
             1..=4 => 50,
             _ => 0,
         };
+        let allowed_split = if reach == Reach::Allowed && rng.chance(1, 2) { rng.range(1, 5) as u8 } else { 0 };
         let in_callee = engine != Engine::Cl && rng.chance(1, 5);
         let helper_first = rng.chance(1, 5);
         let mut loop_step = if loop_n > 1 && adds.len() == 1 && !adds[0].src_is_base && aligned(&adds[0]) && rng.chance(1, 2) { rng.range(1, 1 << 20) as u32 } else { 0 };
@@ -822,7 +829,7 @@ fn generate(rng: &mut Rng) -> Scenario {
                 a.src_reg = *[2u8, 3, 4, 5].iter().find(|r| !reserved(**r)).unwrap();
             }
         }
-        execs.push(ExecSpec { engine, reach, adds, tail_load, loop_n, loop_step, loop_dec_first, pad, in_callee, helper_first, stack_check });
+        execs.push(ExecSpec { engine, reach, adds, tail_load, loop_n, loop_step, loop_dec_first, pad, allowed_split, in_callee, helper_first, stack_check });
     }
     let strategy = match rng.below(3) {
         0 => Strategy::Uniform,
@@ -964,7 +971,19 @@ fn worker(me: usize, spec: &ExecSpec, region: (usize, usize), out: &mut ThreadOu
                 Reach::Allowed => {
                     let mut vm = rbpf::EbpfVmNoData::new(Some(prog))?;
                     let a = region.0 as u64;
-                    vm.register_allowed_memory(a..a + region.1 as u64);
+                    let len = region.1 as u64;
+                    let (q, h) = ((len / 4) & !7, (len / 2) & !7);
+                    let ranges: Vec<std::ops::Range<u64>> = match spec.allowed_split {
+                        1 => vec![a..a + len, a + q..a + q + 8],
+                        2 => vec![a + q..a + q + 8, a..a + len],
+                        3 => vec![a..a + h, a + h..a + len],
+                        4 => vec![a..a + len, a..a + len],
+                        5 => vec![a..a + h + 8, a + q..a + len],
+                        _ => vec![a..a + len],
+                    };
+                    for r in ranges {
+                        vm.register_allowed_memory(r);
+                    }
                     vm.register_helper(HELPER_KEY, noop_helper)?;
                     match spec.engine {
                         Engine::Jit => vm.jit_compile()?,
@@ -1433,6 +1452,9 @@ fn summarise(sc: &Scenario, out: &RunOutput, st: &mut Stats) -> (u64, u64, bool)
         }
         if spec.pad > 0 {
             st.inc(&format!("executions_with_{}_instructions_before_the_adds", spec.pad), 1);
+        }
+        if spec.allowed_split > 0 {
+            st.inc(&format!("allowed_memory_registered_as/{}", ["", "whole_then_nested", "nested_then_whole", "adjacent_halves", "whole_twice", "overlapping"][spec.allowed_split as usize]), 1);
         }
         for a in &spec.adds {
             if a.src_shape != 0 {
